@@ -194,3 +194,11 @@ def rules(t):
             for v_ in x_.violations: rr_.bad(v_.key, v_.site, v_.msg)
     out.append(rr_)
     return out
+
+_rules_c15_w5 = rules
+def rules(t):
+    import rules.shared as shared
+    out = _rules_c15_w5(t)
+    shared.share(t, out, "C15.i", "retransmission stops only for messages a packet really carried: the ids remembered for a sent SmallReliable packet are exactly the ids of its messages", "C01", ("C01.l",))
+    shared.share(t, out, "C15.j", "a due slice is not starved by slices that are merely looked at: the tick budget is charged only for bytes that are emitted", "C14", ("C14.a",))
+    return out
